@@ -112,7 +112,7 @@ def run_cert(kind, tier, seed, C, tz=None):
             err = "coqc %s failed: %s" % (name, e.strip()[-400:]); continue
         m = re.search(r"M\s*=\s*(.*?)\s*:\s*list", re.sub(r"%(N|nat|Z)\b", "", o), re.S)
         if not m: err = "coqc %s: no result" % name; continue
-        found = re.findall(r"\((\d+)%?n?a?t?, \[([^\]]*)\]\)", m.group(1))
+        found = re.findall(r"\((\d+)%?n?a?t?, \[([^\]]*)\]\)", re.sub(r"\s+", " ", m.group(1)))
         err = count_check(o, len(found), name) or err
         for j, codes in found:
             cs = [int(x) for x in re.findall(r"\d+", codes)]
@@ -235,7 +235,7 @@ def run_keys(kind, tier, seed, C):
             err = "coqc %s failed: %s" % (name, e.strip()[-400:]); continue
         m = re.search(r"M\s*=\s*(.*?)\s*:\s*list", re.sub(r"%(N|nat|Z)\b", "", o), re.S)
         if not m: err = "coqc %s: no result" % name; continue
-        found = re.findall(r"\((\d+), \[([^\]]*)\]\)", m.group(1))
+        found = re.findall(r"\((\d+), \[([^\]]*)\]\)", re.sub(r"\s+", " ", m.group(1)))
         err = count_check(o, len(found), name) or err
         for j, codes in found:
             cs = [int(x) for x in re.findall(r"\d+", codes)]
@@ -285,7 +285,7 @@ def run_hview(kind, tier, seed, C):
             err = "coqc %s failed: %s" % (name, e.strip()[-400:]); continue
         m = re.search(r"M\s*=\s*(.*?)\s*:\s*list", re.sub(r"%(N|nat|Z)\b", "", o), re.S)
         if not m: err = "coqc %s: no result" % name; continue
-        found = re.findall(r"\((\d+), \[([^\]]*)\]\)", m.group(1))
+        found = re.findall(r"\((\d+), \[([^\]]*)\]\)", re.sub(r"\s+", " ", m.group(1)))
         err = count_check(o, len(found), name) or err
         for j, codes in found:
             cs = [int(x) for x in re.findall(r"\d+", codes)]; i = idx[int(j)]
